@@ -134,6 +134,29 @@ def run(ctx):
                     if not (np.allclose(t.ngtm, n0[:k], rtol=tol) and np.allclose(t.rho_gtm, r0[:k], rtol=tol)):
                         dev = max(float(np.max(np.abs(t.ngtm / n0[:k] - 1))), float(np.max(np.abs(t.rho_gtm / r0[:k] - 1))))
                         viol("massfunction/grid-end", f"{fit} z={z}: ngtm/rho_gtm at fixed masses change by {dev:.3g} when the grid stops at Mmax={Mmax} instead of 15", {"fit": fit, "z": z, "Mmax": Mmax})
+        # ... with every filter (the automatic high-mass extension works on a copy of the object, filter included)
+        for filt_ in ("Gaussian", "SharpK", "SharpKEllipsoid"):
+            kwg = dict(transfer_model="EH", hmf_model="PS", z=0.0, dlog10m=0.05, filter_model=filt_)      # (default wavenumber range)
+            refg = MassFunction(Mmin=6.0, Mmax=18.0, **kwg)
+            ng_, rg_ = refg.ngtm, refg.rho_gtm
+            for lo_, hi_ in ((6.0, 9.0), (8.0, 10.0), (6.0, 12.0)):
+                tg = MassFunction(Mmin=lo_, Mmax=hi_, **kwg)
+                i0 = int(np.argmin(np.abs(refg.m - tg.m[0])))
+                kk_ = len(tg.m)
+                nmf += 1
+                if not (np.allclose(tg.ngtm, ng_[i0:i0 + kk_], rtol=2e-3) and np.allclose(tg.rho_gtm, rg_[i0:i0 + kk_], rtol=2e-3)):
+                    dev = max(float(np.max(np.abs(tg.ngtm / ng_[i0:i0 + kk_] - 1))), float(np.max(np.abs(tg.rho_gtm / rg_[i0:i0 + kk_] - 1))))
+                    viol(f"massfunction/grid-end/{filt_}", f"PS with the {filt_} filter: ngtm/rho_gtm at fixed masses change by {dev:.3g} when the grid is [{lo_}, {hi_}) instead of [6, 18)", {"filter_model": filt_, "Mmin": lo_, "Mmax": hi_})
+                    break
+        # fits that put all mass in haloes keep doing so when their shape parameters are changed: Manera is the SMT form with its own (a, p)
+        # and the amplitude that normalises it, so its cumulative mass density equals SMT's with A=None and the same (a, p)
+        for hp_ in ({"p": 0.2}, {"a": 0.8, "p": 0.1}, {}):
+            kwm = dict(base, z=0.0, Mmin=8.0, Mmax=16.0, dlog10m=0.1)
+            a_ = MassFunction(hmf_model="Manera", hmf_params=dict(hp_), **kwm).rho_gtm
+            b_ = MassFunction(hmf_model="SMT", hmf_params=dict({"A": None, "a": 0.709, "p": 0.289}, **hp_), **kwm).rho_gtm
+            nmf += 1
+            if not np.allclose(a_, b_, rtol=1e-9):
+                viol("massfunction/collapsed-fraction/Manera", f"Manera with hmf_params={hp_}: rho_gtm differs from the normalised SMT form with the same shape parameters by {float(np.max(np.abs(a_ / b_ - 1))):.3g} (the fit no longer puts all mass in haloes)", {"hmf_params": hp_})
         # collapsed fraction of unit-normalised fits
         for fit, z in (("PS", 0.0), ("PS", 1.0)):
             mf = MassFunction(hmf_model=fit, z=z, Mmin=6.0, Mmax=16.0, dlog10m=0.05, transfer_model="EH", lnk_min=-14.0, lnk_max=14.0, dlnk=0.05)
